@@ -22,6 +22,18 @@ pub assume_specification<T>[ <T as core::convert::From<T>>::from ](t: T) -> (r: 
 pub assume_specification<Idx: Clone>[ <Range<Idx> as Clone>::clone ](r: &Range<Idx>) -> (c: Range<Idx>)
     ensures c == *r;
 
+pub assume_specification<T: Clone>[ <[T]>::to_vec ](s: &[T]) -> (r: Vec<T>)
+    ensures r@.len() == s@.len(), forall|i: int| 0 <= i < s@.len() ==> cloned::<T>(s@[i], #[trigger] r@[i]);
+// Iterator::eq and Option<&[u8]> == have no spec in this vstd: the overlays route the two calls in eq_with
+// through these (assumed: element-wise comparison of what the iterators still yield / of the slices)
+#[verifier::external_body]
+fn iter8_eq<'a, 'b>(a: Iter8<'a>, b: Iter8<'b>) -> (r: bool)
+    ensures r == (a.grp() == b.grp())
+{ a.eq(b) }
+#[verifier::external_body]
+fn opt_slice_eq(a: Option<&[u8]>, b: Option<&[u8]>) -> (r: bool)
+    ensures r == ((a is None && b is None) || (a is Some && b is Some && a->0@ == b->0@))
+{ a == b }
 pub assume_specification<T: ?Sized, A: core::alloc::Allocator>[ Rc::<T, A>::strong_count ](this: &Rc<T, A>) -> (r: usize);
 
 // R1: indexing through Rc<Cow<[u8]>> (Cow::deref has no spec in this vstd)
@@ -79,6 +91,10 @@ impl Bitstr {
 //@use bitstr.fns Bitstr::bits
 //@use bitstr.fns Bitstr::iter8
 //@use bitstr.fns Bitstr::data_mut
+//@use bitstr.fns Bitstr::to_bytes_with_padding
+//@use bitstr.fns Bitstr::to_bytes
+//@use bitstr.fns Bitstr::eq_with
+//@use bitstr.fns Bitstr::new
 //@use bitstr.fns Bitstr::detach
 //@use bitstr.fns Bitstr::append_bits_mut
 //@use bitstr.fns Bitstr::append
@@ -158,8 +174,35 @@ impl<'a> Iter8<'a> {
     }
     pub closed spec fn cur(&self) -> int { self.pos as int }
     pub closed spec fn src(&self) -> &Bitstr { self.bs }
+    // the 8-bit groups still to come
+    pub closed spec fn grp(&self) -> Seq<(u8, u32)> { groups(self.bs.data@, self.pos as int, self.bs.range.end as int) }
+}
+
+impl<'a> vstd::std_specs::iter::IteratorSpecImpl for Iter8<'a> {
+    open spec fn obeys_prophetic_iter_laws(&self) -> bool { true }
+    open spec fn remaining(&self) -> Seq<(u8, u32)> { self.grp() }
+    open spec fn will_return_none(&self) -> bool { true }
+    open spec fn decrease(&self) -> Option<nat> { Some(self.grp().len()) }
+    open spec fn peek(&self, index: int) -> Option<(u8, u32)> {
+        if 0 <= index < self.grp().len() { Some(self.grp()[index]) } else { None }
+    }
+}
+
+impl<'a> Iterator for Iter8<'a> {
+    type Item = (u8, u32);
 //@use bitstr.fns "impl<'a> Iterator for Iter8<'a>"::next
 }
+
+// `==` on bit-strings is equality of the bit sequences
+impl vstd::std_specs::cmp::PartialEqSpecImpl for Bitstr {
+    open spec fn obeys_eq_spec() -> bool { true }
+    open spec fn eq_spec(&self, other: &Self) -> bool { self.view() == other.view() }
+}
+
+impl PartialEq for Bitstr {
+//@use bitstr.fns "impl PartialEq for Bitstr"::eq
+}
+
 
 } // verus!
 fn main() {}
